@@ -119,6 +119,15 @@ def gen_world(r, leg):
 			p = r.randint(0, L - 1)
 			for q in range(p, min(L, p + r.randint(1, 3))):
 				s[q] = "N"
+		if r.chance(0.1):
+			# a run of unknown characters at least as long as the widest motif
+			p = r.randint(0, max(0, L - 1))
+			for q in range(p, min(L, p + max(ws) + r.randint(0, 2))):
+				s[q] = "N"
+		if r.chance(0.15):
+			# unknown characters that are not 'N' (RNA / IUPAC codes, gaps)
+			for _ in range(r.randint(1, 3)):
+				s[r.randint(0, L - 1)] = r.choice("URYKM-")
 		if r.chance(0.2):
 			# unknown characters at the very start / end (hits may reach into them)
 			for q in range(min(L, r.randint(1, 3))):
@@ -138,6 +147,13 @@ def gen_world(r, leg):
 		"eps": r.choice([1e-4, 1e-4, 1e-3]), "reverse_complement": r.chance(0.7)}
 	if r.chance(0.1) and all(v > 0 for m in motifs for row in m["pwm"] for v in row):
 		cfg["eps"] = 0.0          # legal as long as no probability is exactly zero
+	if r.chance(0.06):
+		for m in motifs:
+			w_ = len(m["pwm"][0])
+			cols = [r.shuffle([0.5, 0.25, 0.125, 0.125]) for _ in range(w_)]
+			m["pwm"] = [[cols[j][i] for j in range(w_)] for i in range(4)]
+		cfg["eps"] = 0.0
+		cfg["bin_size"] = 1.0
 	return {"motifs": motifs, "seqs": seqs, "cfg": cfg, "equal_length": equal}
 
 
@@ -189,16 +205,28 @@ class Oracle(object):
 
 	def expected(self):
 		"""definite: {(motif, seq, start, strand): score}; optional: same for
-		windows inside the ambiguity band."""
+		windows inside the ambiguity band.  The band is for scores that are sums of
+		inexact terms; where every term is an exactly representable integer (dyadic
+		PWM with eps = 0) or the window holds unknown characters only (score exactly
+		0), `score > threshold` is decided exactly and nothing is optional."""
 		definite, optional = {}, {}
 		for t in self.tables:
 			if t["thr"] == float("inf"):
 				continue
 			b = self.band(t["thr"])
+			exact_lp = bool(numpy.all(numpy.isfinite(t["lp"])) and
+				numpy.all(t["lp"] == numpy.round(t["lp"])))
 			for si in range(len(self.seq_idx)):
 				sc = self.window_scores(t, si)
+				a = self.seq_idx[si]
+				w = t["w"]
 				for i in numpy.nonzero(sc > t["thr"] - b)[0]:
 					key = (t["motif"], si, int(i), t["strand"])
+					exact = exact_lp or bool(numpy.all(a[i:i + w] < 0))
+					if exact:
+						if sc[i] > t["thr"]:
+							definite[key] = float(sc[i])
+						continue
 					if sc[i] > t["thr"] + b:
 						definite[key] = float(sc[i])
 					else:
